@@ -204,7 +204,17 @@ func runCase(c Case, k int) CaseResult {
 			res.Seen["noninjective-keys-skipped"]++
 		}
 		if modes["value"] && !in.NonInjective {
-			if d := Equal(g.out, m.out); d != "" {
+			d := Equal(g.out, m.out)
+			if d != "" && modes["nilkeeps"] {
+				// second acceptable result: nil pointer/slice/map sources leave the constructor's value untouched
+				in.NilKeeps = true
+				m2 := in.safeEval(ps.Root, Clone(before), dt)
+				in.NilKeeps = false
+				if !m2.panicked && m2.err == nil {
+					d = eqEither(g.out, m.out, m2.out, "")
+				}
+			}
+			if d != "" {
 				fail(Fail{Kind: "value", Value: shown, Got: Show(g.out), Want: Show(m.out), Detail: d})
 			}
 		}
